@@ -8,6 +8,8 @@ V = os.path.dirname(os.path.dirname(os.path.abspath(__file__)))
 props = {json.loads(l)["id"]: json.loads(l) for l in open(os.path.join(V, "properties.jsonl"))}
 TEMPLATE = open(os.path.join(V, "tools", "seed_task_template.md")).read()
 batch = sys.argv[1]
+if batch.startswith("N"):  # neutral batch: behaviour-preserving refactorings (false-alarm test)
+    TEMPLATE = open(os.path.join(V, "tools", "neutral_task_template.md")).read()
 for arg in sys.argv[2:]:
     if "~" in arg:
         # PID~<phrase of the property's own quantifier text>: aim at an input dimension instead of a mechanism
